@@ -319,7 +319,7 @@ func init() {
 		Run:              runC16,
 		CaseTimeout:      3 * time.Minute,
 		HangInconclusive: true,
-		Rule: "case = one dense concurrent run in the race build: clients (Put/Get/Has/GetSize/Remove) + started flusher and/or explicit Flush loop + StorageSize/IndexStorageSize/PrimaryStorageSize/FreelistStorageSize/Err callers + SetFileCacheSize + collectors (background at 2-5 ms, or one harness-driven goroutine per collector) + in a quarter of the cases the rate-limited writer path, with file limits small enough that index and primary roll files while collectors read the current-file numbers. Verdict = Go race detector reports (happens-before based) with a go-storethehash frame, deduplicated by the pair of first store frames; runtime fatal errors (concurrent map access) end the worker and are attributed to the case. " +
+		Rule: "case = one dense concurrent run in the race build: clients (Put/Get/Has/GetSize/Remove) + started flusher and/or explicit Flush loop + StorageSize/IndexStorageSize/PrimaryStorageSize/FreelistStorageSize/Err callers + SetFileCacheSize + collectors (background at 2-5 ms, or one harness-driven goroutine per collector) + in a quarter of the cases the rate-limited writer path, with file limits small enough that index and primary roll files while collectors read the current-file numbers. Verdict = Go race detector reports (happens-before based) with a go-storethehash frame, deduplicated by the pair of first store frames; runtime fatal errors (concurrent map access) end the worker and are attributed to the case. One case in sixteen runs the error paths instead: a background flush fails (the primary file it has to roll over to already exists) while rate-limited writers register for flush notices, then Close. " +
 			"non-trivial iff client operations overlapped and a flush with work and at least one GC cycle ran during the case; distinct = distinct interleaving hashes",
 		Assumptions: []string{
 			"only executed code paths and the happens-before relations of the observed executions",
@@ -331,6 +331,9 @@ func init() {
 func runC16(c run.Ctx) *core.CaseResult {
 	res := &core.CaseResult{ID: c.ID(), Verdict: "held"}
 	switch c.Index % 16 {
+	case 12:
+		c16FailingFlush(c, res)
+		return res
 	case 13:
 		// Close racing with background collectors and flusher (C17 family 1): only races are verdicts here
 		sub := &core.CaseResult{ID: c.ID(), Verdict: "held"}
